@@ -1096,6 +1096,32 @@ def r132(ctx, repo, model, pattern, chk):
                     want + ["warn"]):
                 problems.append(f"returns {out}, expected the cues of all "
                                 "calls plus the warning cues")
+        # the verdict is a function of the dataset: a second call on the
+        # same checker returns the same cues and leaves its state alone
+        if err is None and not problems:
+            first = list(out)
+            del calls[:]
+            model.interp.steps = 0
+            try:
+                out2 = Func(chk, g, model.interp)(me, expand_section=False)
+                rep = None
+                if not isinstance(out2, list) or sorted(out2) != sorted(
+                        first):
+                    rep = (f"a second check() on the same checker returns "
+                           f"{out2}, the first returned {first}: cues are "
+                           "kept across calls (duplicated / stale cues)")
+            except ModelRaise as e:
+                rep = f"a second check() on the same checker raises {e}"
+            wc = me.__dict__.get("warn_cues")
+            if rep is None and wc != ["warn"]:
+                rep = (f"check() changes the checker's warn_cues to {wc}: "
+                       "the next call starts from the cues of this one")
+            ctx.ob("R13.4", rep is None,
+                   f"check() (fluorescence={has_fl}) called twice on one "
+                   "checker returns the same cues" if rep is None else
+                   f"check() (fluorescence={has_fl}): {rep}", node=chk,
+                   key=f"{CHK}::IntegrityChecker.check::same cues on a "
+                   f"second call (fluorescence={has_fl})")
         ctx.ob("R13.2", not problems,
                f"check() (fluorescence={has_fl}) runs each of "
                f"{sorted(want)} once and returns all cues" if not problems
@@ -1769,6 +1795,212 @@ def r133_images(ctx, repo, model):
 
 # ----------------------------------------------------------------------
 
+_INPLACE = {"append", "extend", "insert", "update", "add", "setdefault",
+            "pop", "remove", "clear", "sort", "reverse", "discard",
+            "popitem", "__iadd__", "__setitem__"}
+_FRESH_CALLS = {"list", "dict", "set", "sorted", "copy.deepcopy",
+                "copy.copy", "deepcopy", "collections.OrderedDict",
+                "OrderedDict", "collections.defaultdict", "defaultdict",
+                "collections.Counter", "Counter", "bytearray"}
+_IMMUTABLE_CALLS = {"len", "int", "float", "str", "bool", "tuple", "sum",
+                    "min", "max", "abs", "round", "frozenset", "np.sum",
+                    "repr", "any", "all"}
+
+
+def r134(ctx, repo, model, pattern, chk):
+    """every container a check method (or the collector) fills in place is
+    created by that call: not an attribute of the checker / its class, not a
+    module-level object, not a mutable default – otherwise the cues of one
+    call are still there in the next"""
+    tree = repo.tree(CHK)
+    modnames = set()
+    for st in tree.body:
+        for t in (st.targets if isinstance(st, ast.Assign) else
+                  [st.target] if isinstance(st, (ast.AnnAssign,
+                                                 ast.AugAssign)) else []):
+            modnames |= {n.id for n in ast.walk(t) if isinstance(n, ast.Name)}
+        if isinstance(st, (ast.ClassDef, ast.FunctionDef)):
+            modnames.add(st.name)
+    targets = {n: f for n, f in model.methods.items()
+               if n.startswith(pattern) or f is chk or n == "sanity_check"}
+    if chk not in targets.values():
+        targets["check"] = chk
+
+    def analyse(name, f):
+        params = {}
+        a = f.args
+        pos = a.posonlyargs + a.args
+        for p, d in zip(pos[len(pos) - len(a.defaults):], a.defaults):
+            params[p.arg] = d
+        for p, d in zip(a.kwonlyargs, a.kw_defaults):
+            params[p.arg] = d
+        allparams = {p.arg for p in pos + a.kwonlyargs}
+        for extra in (a.vararg, a.kwarg):
+            if extra is not None:
+                allparams.add(extra.arg)
+        local_defs = {n.name for n in ast.walk(f) if isinstance(
+            n, (ast.FunctionDef, ast.Lambda)) and n is not f
+            and hasattr(n, "name")}
+        origins = {}     # name -> [expr | "loop" | "unpack"]
+        for n in ast.walk(f):
+            if isinstance(n, ast.Assign):
+                for t in n.targets:
+                    if isinstance(t, ast.Name):
+                        origins.setdefault(t.id, []).append(n.value)
+                    else:
+                        for x in ast.walk(t):
+                            if isinstance(x, ast.Name) and isinstance(
+                                    x.ctx, ast.Store):
+                                origins.setdefault(x.id, []).append("unpack")
+            elif isinstance(n, ast.AnnAssign) and isinstance(
+                    n.target, ast.Name) and n.value is not None:
+                origins.setdefault(n.target.id, []).append(n.value)
+            elif isinstance(n, (ast.For, ast.comprehension)):
+                for x in ast.walk(n.target):
+                    if isinstance(x, ast.Name):
+                        origins.setdefault(x.id, []).append("loop")
+            elif isinstance(n, ast.withitem) and n.optional_vars is not None:
+                for x in ast.walk(n.optional_vars):
+                    if isinstance(x, ast.Name):
+                        origins.setdefault(x.id, []).append("with")
+            elif isinstance(n, ast.NamedExpr):
+                origins.setdefault(n.target.id, []).append(n.value)
+
+        def root(e):
+            while isinstance(e, (ast.Attribute, ast.Subscript)):
+                e = e.value
+            return e
+
+        def kind(e, seen=()):
+            """'fresh' | 'immutable' | 'shared:<what>' | 'unknown'"""
+            if isinstance(e, str):
+                return "unknown"
+            if isinstance(e, (ast.List, ast.ListComp, ast.Dict, ast.DictComp,
+                              ast.Set, ast.SetComp)):
+                return "fresh"
+            if isinstance(e, (ast.Constant, ast.Tuple, ast.JoinedStr,
+                              ast.Compare, ast.BoolOp, ast.UnaryOp)) \
+                    and not isinstance(e, ast.BoolOp):
+                return "immutable"
+            if isinstance(e, ast.BoolOp):
+                ks = {kind(v, seen) for v in e.values}
+                sh = sorted(k for k in ks if k.startswith("shared"))
+                if sh:
+                    return sh[0]
+                return ks.pop() if len(ks) == 1 else "unknown"
+            if isinstance(e, ast.IfExp):
+                ks = {kind(e.body, seen), kind(e.orelse, seen)}
+                sh = sorted(k for k in ks if k.startswith("shared"))
+                if sh:
+                    return sh[0]
+                return ks.pop() if len(ks) == 1 else "unknown"
+            if isinstance(e, ast.BinOp):
+                # a new object, whatever the operands are (list + list,
+                # number arithmetic, string formatting)
+                return "fresh"
+            if isinstance(e, ast.Call):
+                cn = call_name(e) or ""
+                if cn in _FRESH_CALLS or cn.split(".")[-1] in (
+                        "copy", "deepcopy", "tolist"):
+                    return "fresh"
+                if cn in _IMMUTABLE_CALLS:
+                    return "immutable"
+                fn = e.func
+                if isinstance(fn, ast.Attribute) and isinstance(
+                        fn.value, ast.Name) and fn.value.id in (
+                        "self", "cls", model.cls.name) \
+                        and fn.attr in targets:
+                    return "fresh"      # decided for that method itself
+                if isinstance(fn, ast.Name) and fn.id == "ICue":
+                    return "fresh"
+                return "unknown"
+            if isinstance(e, (ast.Attribute, ast.Subscript)):
+                r = root(e)
+                if isinstance(r, ast.Name):
+                    if r.id in ("self", "cls", model.cls.name):
+                        return f"shared:`{short(e, 40)}` (state of the " \
+                               "checker, lives across calls)"
+                    if r.id not in origins and r.id not in allparams and \
+                            r.id in modnames:
+                        return f"shared:`{short(e, 40)}` (module-level " \
+                               "object)"
+                return "unknown"
+            if isinstance(e, ast.Name):
+                if e.id in seen:
+                    return "unknown"
+                if e.id in origins:
+                    ks = {kind(o, seen + (e.id,)) for o in origins[e.id]}
+                    sh = sorted(k for k in ks if k.startswith("shared"))
+                    if sh:
+                        return sh[0]
+                    return ks.pop() if len(ks) == 1 else "unknown"
+                if e.id in allparams:
+                    d = params.get(e.id)
+                    if d is not None and kind(d) == "fresh":
+                        return f"shared:`{e.id}={short(d, 20)}` (mutable " \
+                               "default, created once)"
+                    return "unknown"
+                if e.id in modnames and e.id not in local_defs:
+                    return f"shared:`{e.id}` (module-level object)"
+                return "unknown"
+            return "unknown"
+        returned = set()
+        for n in ast.walk(f):
+            if isinstance(n, ast.Return) and n.value is not None:
+                returned |= {x.id for x in ast.walk(n.value)
+                             if isinstance(x, ast.Name)}
+        ret_txt = [txt(n.value) for n in ast.walk(f) if isinstance(
+            n, ast.Return) and n.value is not None]
+        bad, unknown, n_acc = [], [], 0
+        for n in ast.walk(f):
+            recv = None
+            if isinstance(n, ast.AugAssign):
+                recv = n.target
+            elif isinstance(n, ast.Call) and isinstance(
+                    n.func, ast.Attribute) and n.func.attr in _INPLACE:
+                recv = n.func.value
+            elif isinstance(n, (ast.Assign, ast.Delete)):
+                for t in n.targets:
+                    if isinstance(t, ast.Subscript):
+                        recv = t.value
+            if recv is None:
+                continue
+            k = kind(recv)
+            if k in ("fresh",):
+                n_acc += 1
+            elif k.startswith("shared"):
+                # an alias of the state, or the state itself when it is
+                # what the method returns
+                if isinstance(recv, ast.Name) or any(
+                        txt(recv) in r for r in ret_txt):
+                    bad.append((n, recv, k[len("shared:"):]))
+            elif k == "unknown" and isinstance(recv, ast.Name) \
+                    and recv.id in returned:
+                unknown.append(recv.id)
+        return bad, unknown, n_acc
+    n_total = 0
+    for name in sorted(targets):
+        f = targets[name]
+        bad, unknown, n_acc = analyse(name, f)
+        if unknown and not bad:
+            raise AnalysisError(
+                f"R13.4: origin of the accumulator `{unknown[0]}` of "
+                f"IntegrityChecker.{name} not recognised")
+        n_total += n_acc
+        if bad:
+            n, recv, what = bad[0]
+            msg = (f"{name}: `{short(n, 40)}` fills {what} in place – the "
+                   "cues / entries of one call are still there in the next "
+                   "(a second check reports them again, a repaired dataset "
+                   "keeps its stale violations)")
+        else:
+            msg = (f"{name}: every container filled in place is created by "
+                   "the call")
+        ctx.ob("R13.4", not bad, msg, node=bad[0][0] if bad else f,
+               key=f"{CHK}::IntegrityChecker.{name}::accumulator per call")
+    ctx.stat("R13.4 in-place operations on per-call containers", n_total)
+
+
 def _guard(rid, fn, *args):
     """an unrecognised shape must surface as a named analysis error, never
     as a traceback"""
@@ -1802,11 +2034,16 @@ def run(ctx):
     ctx.rule("R13.3", "metadata derived by rectify_metadata satisfy the "
              "checker on every model feature set; docstring keys; run on "
              "exit", minimum=8)
+    ctx.rule("R13.4", "the verdict is a function of the dataset: check() "
+             "called twice on one checker returns the same cues (model "
+             "class dictionary); every container a check method fills in "
+             "place is created by that call", minimum=28)
     model = _guard("model", Model, repo)
     pattern, chk = collector_pattern(repo)
     sets = _guard("R13.2", collected_sets, model, chk)
     _guard("R13.1", r131, ctx, repo, model, pattern, sets)
     _guard("R13.2", r132, ctx, repo, model, pattern, chk)
+    _guard("R13.4", r134, ctx, repo, model, pattern, chk)
     _guard("R13.3", r133, ctx, repo, model)
     _guard("R13.3", r133_images, ctx, repo, model)
     ctx.model = model
@@ -2501,4 +2738,42 @@ TWINS = list(TWINS) + [
     ("temperature test without the head shortcut", CHK,
      ("            if np.allclose(temp[:10], 0) and np.allclose(temp, 0):",
       "            if np.allclose(temp, 0):")),
+]
+
+# round-7 seeded change (object lifecycle: where the accumulator lives)
+_CHK_ACC = ("        cues = []\n"
+            "        funcs = IntegrityChecker.__dict__\n")
+_CHK_RET = "        return sorted(self.warn_cues + cues)\n"
+MUTANTS = list(MUTANTS) + [
+    ("collector accumulates into the checker's warn_cues", CHK,
+     [(_CHK_ACC, "        cues = self.warn_cues\n"
+                 "        funcs = IntegrityChecker.__dict__\n"),
+      (_CHK_RET, "        return sorted(cues)\n")], "R13.4"),
+    ("collector extends the checker's warn_cues and returns them", CHK,
+     [("                cues += funcs[ff](self, **kwargs)\n",
+       "                self.warn_cues.extend(funcs[ff](self, **kwargs))\n"),
+      (_CHK_RET, "        return sorted(self.warn_cues)\n")], "R13.4"),
+    ("check_empty accumulates into a mutable default", CHK,
+     ("    def check_empty(self, **kwargs):\n"
+      "        \"\"\"The dataset should contain events\"\"\"\n"
+      "        cues = []\n",
+      "    def check_empty(self, cues=[], **kwargs):\n"
+      "        \"\"\"The dataset should contain events\"\"\"\n"), "R13.4"),
+    ("check_metadata_missing updates the module-level key table", CHK,
+     ("        important = copy.deepcopy(IMPORTANT_KEYS)\n",
+      "        important = IMPORTANT_KEYS\n"), "R13.4"),
+]
+TWINS = list(TWINS) + [
+    ("collector starts from a per-call copy of the warning cues", CHK,
+     [(_CHK_ACC, "        cues = list(self.warn_cues)\n"
+                 "        funcs = IntegrityChecker.__dict__\n"),
+      (_CHK_RET, "        return sorted(cues)\n")]),
+    ("collector extends a list() accumulator", CHK,
+     [(_CHK_ACC, "        cues = list()\n"
+                 "        funcs = IntegrityChecker.__dict__\n"),
+      ("                cues += funcs[ff](self, **kwargs)\n",
+       "                cues.extend(funcs[ff](self, **kwargs))\n")]),
+    ("check_metadata_missing: key table copied into a new dict", CHK,
+     ("        important = copy.deepcopy(IMPORTANT_KEYS)\n",
+      "        important = dict(copy.deepcopy(IMPORTANT_KEYS))\n")),
 ]
